@@ -272,6 +272,97 @@ theorem C10_duration_total (s : Str) : ∃ r, durationTime s = .ok r := by
             · rw [hgh] at hg; cases hg
             · rw [hgm] at hg; cases hg
 
+/-- **Throws never fail**: every string in the language of the throws pattern gets the key `(4, order)`. -/
+theorem C10_throws_total (d : Str) (hd : d ≠ []) (ht : (pyMatch "PAT_THROWS" d).isSome = true) :
+    ∃ n, sortKey d = .ok (4, n) := by
+  have hM : Matches Gen.PAT_THROWS d := (pyMatch_iff _ _ (Oblig.C07.tied mem_THROWS) d).1 ht
+  obtain ⟨n, hn⟩ := fieldOrder_total true Gen.PAT_THROWS Oblig.C10.throws_prefix d hM
+  have hne : d.isEmpty = false := by cases d <;> simp_all
+  exact ⟨n, by unfold sortKey; simp only [hne, ht, hn, Bool.false_eq_true, if_false, if_true, Except.map]⟩
+
+/-- **Jumps never fail.** -/
+theorem C10_jumps_total (d : Str) (hd : d ≠ []) (ht : (pyMatch "PAT_THROWS" d).isSome = false)
+    (hh : pyMatch "PAT_HURDLES" d = none) (hj : (pyMatch "PAT_JUMPS" d).isSome = true) :
+    ∃ n, sortKey d = .ok (3, n) := by
+  have hM : Matches Gen.PAT_JUMPS d := (pyMatch_iff _ _ (Oblig.C07.tied mem_JUMPS) d).1 hj
+  obtain ⟨n, hn⟩ := fieldOrder_total false Gen.PAT_JUMPS Oblig.C10.jumps_prefix d hM
+  have hne : d.isEmpty = false := by cases d <;> simp_all
+  exact ⟨n, by unfold sortKey; simp only [hne, ht, hh, hj, hn, Bool.false_eq_true, if_false, if_true, Except.map]⟩
+
+/-- **Track codes with a metres part never fail**: the part is `\d+`, `MILE`, or a digit and `MILE`. -/
+theorem C10_track_metres_total (d : Str) (tc : GRE.Caps) (g1 : Str)
+    (hm : pyMatch "PAT_TRACK" d = some tc) (hg : group d tc 1 = some g1) :
+    ∃ n, (if strEq g1 "MILE" then (Except.ok (1, 1609) : Except PyErr (Nat × Nat))
+          else if endsWith g1 "MILE" then (pyInt (g1.take 1)).map (fun m => (1, 1609 * m))
+          else (pyInt g1).map (fun n => (1, n))) = .ok (1, n) := by
+  rcases track_metres_shape Oblig.C10.track_metres d tc g1 hm hg with ⟨hne, hdig⟩ | rfl | ⟨c, hc, rfl⟩
+  · obtain ⟨n, hn⟩ := pyInt_of_digits Oblig.C10.digit_table g1 hne hdig
+    have hne1 : g1.take 1 ≠ [] := by cases g1 <;> simp_all
+    obtain ⟨m, hm1⟩ := pyInt_of_digits Oblig.C10.digit_table (g1.take 1) hne1
+      (fun c hc => hdig c (List.mem_of_mem_take hc))
+    split
+    · exact ⟨_, rfl⟩
+    · split
+      · exact ⟨_, by rw [hm1]; rfl⟩
+      · exact ⟨_, by rw [hn]; rfl⟩
+  · have h1 : strEq mileWord "MILE" = true := by decide
+    exact ⟨1609, by simp only [h1, if_true]⟩
+  · obtain ⟨m, hm1⟩ := pyInt_of_digits Oblig.C10.digit_table [c] (by simp) (by simpa using hc)
+    have h1 : strEq (c :: mileWord) "MILE" = false := by
+      simp [strEq, mileWord]
+    have h2 : endsWith (c :: mileWord) "MILE" = true := by
+      simp [endsWith, mileWord]
+    simp only [h1, h2, Bool.false_eq_true, if_false, if_true, List.take_succ_cons, List.take_zero, hm1, Except.map]
+    exact ⟨_, rfl⟩
+
+/-- **The sort key can only fail through `get_distance`**: for EVERY string, if `discipline_sort_key` fails then a
+    `get_distance` call (on the code itself, for a track code without a metres part, or on the upper-cased leg of
+    a relay whose leg is not a plain number) failed with that error.  Throws, hurdles, jumps, track codes with a
+    metres part and strings outside every family always get a key. -/
+theorem C10_sortKey_fails_only_through_getDistance (d : Str) (e : PyErr) (h : sortKey d = .error e) :
+    ∃ x, getDistance 8 x = .error e := by
+  by_cases hd : d = []
+  · subst hd; simp [sortKey] at h
+  by_cases ht : (pyMatch "PAT_THROWS" d).isSome = true
+  · obtain ⟨n, hn⟩ := C10_throws_total d hd ht; rw [hn] at h; cases h
+  have ht' : (pyMatch "PAT_THROWS" d).isSome = false := by simpa using ht
+  cases hh : pyMatch "PAT_HURDLES" d with
+  | some hc =>
+    obtain ⟨n, hn⟩ := C10_hurdles_total d hd ht' (by rw [hh]; rfl); rw [hn] at h; cases h
+  | none =>
+    by_cases hj : (pyMatch "PAT_JUMPS" d).isSome = true
+    · obtain ⟨n, hn⟩ := C10_jumps_total d hd ht' hh hj; rw [hn] at h; cases h
+    have hj' : (pyMatch "PAT_JUMPS" d).isSome = false := by simpa using hj
+    have hne : d.isEmpty = false := by cases d <;> simp_all
+    unfold sortKey at h
+    simp only [hne, ht', hh, hj', Bool.false_eq_true, if_false] at h
+    cases hr : pyMatch "PAT_RELAYS" d with
+    | some rc =>
+      simp only [hr] at h
+      split at h
+      · cases h
+      · split at h
+        · cases h
+        · cases h
+        · next e' he' => injection h with h; subst h; exact ⟨_, he'⟩
+    | none =>
+      simp only [hr] at h
+      cases htr : pyMatch "PAT_TRACK" d with
+      | none => simp only [htr] at h; cases h
+      | some tc =>
+        simp only [htr] at h
+        cases hg : group d tc 1 with
+        | none =>
+          simp only [hg] at h
+          split at h
+          · cases h
+          · cases h
+          · next e' he' => injection h with h; subst h; exact ⟨_, he'⟩
+        | some g1 =>
+          simp only [hg] at h
+          obtain ⟨n, hn⟩ := C10_track_metres_total d tc g1 htr hg
+          rw [hn] at h; cases h
+
 /-- Full statement of the totality clause (NOT proved here). -/
 def C10_total_statement : Prop :=
   ∀ s : Str, (pyMatch "PAT_EVENT_CODE" s).isSome →
